@@ -36,7 +36,10 @@ static int do_dec(uint8_t *m, size_t *mlen, const uint8_t *c, size_t clen, const
         if (clen < 16) return -1;
         api_inc_state st; api_inc_init[alg](&st, n, k); api_inc_start[alg](&st, ad, adlen);
         /* alternately out of place and in place (documented for the block functions: "out may be the same buffer as in") */
-        { static unsigned ip; if (ip++ & 1) { memcpy(m, c, clen - 16); api_inc_dec[alg](&st, m, m, clen - 16); } else api_inc_dec[alg](&st, c, m, clen - 16); }
+        /* every third call gives the ciphertext in four chunks, one of them empty and placed in the middle of a block */
+        { static unsigned ip; ip++; size_t n = clen - 16;
+          if (ip % 3 == 2) { size_t k1 = (adlen * 5 + n * 3 + 1) % (n + 1), k2 = k1 + (n - k1) / 2; api_inc_dec[alg](&st, c, m, k1); api_inc_dec[alg](&st, c + k1, m + k1, 0); api_inc_dec[alg](&st, c + k1, m + k1, k2 - k1); api_inc_dec[alg](&st, c + k2, m + k2, n - k2); }
+          else if (ip & 1) { memcpy(m, c, n); api_inc_dec[alg](&st, m, m, n); } else api_inc_dec[alg](&st, c, m, n); }
         r = api_inc_decfin[alg](&st, c + clen - 16); api_inc_free[alg](&st);
         *mlen = clen - 16; break; }
     case 2: { api_masked_key mk; api_masked_key_init(alg, &mk, k);
